@@ -5,12 +5,10 @@
 //! working tree here, as plain facts, so that changing one of them changes a Lean
 //! definition and `RotoV.C13.source_facts_as_modelled` stops checking:
 //!
-//!  * `ScopeGraph::resolve_name` (src/typechecker/scope.rs): the order in which
-//!    the loop consults the scope's declarations, the `recurse` gate, the scope's
-//!    imports and the parent scope;
-//!  * `resolve_module_part_of_path` (src/typechecker/expr.rs): the values given
-//!    to `recurse` (initially, after a leading `super`, after every segment), and
-//!    that a leading `pkg` is looked up from the global scope;
+//!  * `ScopeGraph::resolve_name` (src/typechecker/scope.rs): no longer a fact but
+//!    the whole loop body, transliterated by target `scoperesolve` (end of this file);
+//!  * `resolve_module_part_of_path` (src/typechecker/expr.rs): no longer facts but
+//!    the whole function, transliterated by target `scopepath` (end of this file);
 //!  * `declare_modules` (src/typechecker/mod.rs): the parent of a module scope;
 //!  * `TypeInfo::full_name` (src/typechecker/info.rs): the separator;
 //!  * `Module::get_function` (src/codegen/mod.rs): the prefix of the looked-up name;
@@ -32,6 +30,9 @@ use syn::visit::Visit;
 pub const TARGETS: &[Target] = &[
     ("scopefacts", "ScopeFacts", scopefacts as Gen),
     ("scopeimports", "ScopeImportsLoop", scopeimports as Gen),
+    ("scoperesolve", "ScopeResolveLoop", scoperesolve as Gen),
+    ("scopepath", "ScopePathLoop", scopepath as Gen),
+    ("scopeimportone", "ScopeImportOne", scopeimportone as Gen),
 ];
 
 fn codes(s: &str) -> String {
@@ -40,55 +41,6 @@ fn codes(s: &str) -> String {
 
 fn flat(t: &impl ToTokens) -> String {
     t.to_token_stream().to_string().replace(' ', "")
-}
-
-/// what `resolve_name` consults, in source order
-struct Order(Vec<&'static str>);
-impl<'ast> Visit<'ast> for Order {
-    fn visit_expr_method_call(&mut self, m: &'ast syn::ExprMethodCall) {
-        // receivers first: they are evaluated first
-        self.visit_expr(&m.receiver);
-        let recv = flat(&m.receiver);
-        if m.method == "get" && recv.ends_with("declarations") {
-            self.0.push("decl");
-        } else if m.method == "get" && recv.ends_with(".imports") {
-            self.0.push("imports");
-        } else if m.method == "parent" && recv == "self" {
-            self.0.push("parent");
-        }
-        for a in &m.args {
-            self.visit_expr(a);
-        }
-    }
-    fn visit_expr_unary(&mut self, u: &'ast syn::ExprUnary) {
-        if matches!(u.op, syn::UnOp::Not(_)) && flat(&u.expr) == "recurse" {
-            self.0.push("gate");
-        }
-        syn::visit::visit_expr_unary(self, u);
-    }
-    fn visit_expr_path(&mut self, p: &'ast syn::ExprPath) {
-        // `if recurse && …` is the same gate written positively (it guards what follows)
-        let _ = p;
-    }
-}
-
-/// every value given to the variable `recurse`, in source order
-struct Recurse(Vec<String>);
-impl<'ast> Visit<'ast> for Recurse {
-    fn visit_local(&mut self, l: &'ast syn::Local) {
-        if flat(&l.pat).trim_start_matches("mut") == "recurse" {
-            if let Some(init) = &l.init {
-                self.0.push(flat(&init.expr));
-            }
-        }
-        syn::visit::visit_local(self, l);
-    }
-    fn visit_expr_assign(&mut self, a: &'ast syn::ExprAssign) {
-        if flat(&a.left) == "recurse" {
-            self.0.push(flat(&a.right));
-        }
-        syn::visit::visit_expr_assign(self, a);
-    }
 }
 
 /// string literals compared (`==` / `!=`) with the expression named `lhs`
@@ -106,6 +58,69 @@ impl<'ast> Visit<'ast> for Compared<'_> {
             }
         }
         syn::visit::visit_expr_binary(self, b);
+    }
+}
+
+/// names of the locals (`let v = …`) whose initialiser contains `needle`
+struct BoundTo<'a>(&'a str, Vec<String>);
+impl<'ast> Visit<'ast> for BoundTo<'_> {
+    fn visit_local(&mut self, l: &'ast syn::Local) {
+        if let (syn::Pat::Ident(pi), Some(init)) = (&l.pat, &l.init) {
+            if flat(&init.expr).contains(self.0) {
+                self.1.push(pi.ident.to_string());
+            }
+        }
+        syn::visit::visit_local(self, l);
+    }
+}
+
+/// `matches!(var, "a" | "b")`: the literals (`.1`); any other `matches!` on `var` goes to `.2`
+struct MatchesLits<'a>(&'a str, Vec<String>, Vec<String>);
+struct MatchesArgs(syn::Expr, syn::Pat, bool);
+impl syn::parse::Parse for MatchesArgs {
+    fn parse(input: syn::parse::ParseStream) -> syn::Result<Self> {
+        let e: syn::Expr = input.parse()?;
+        input.parse::<syn::Token![,]>()?;
+        let p = syn::Pat::parse_multi_with_leading_vert(input)?;
+        let guard = !input.is_empty() && !(input.peek(syn::Token![,]) && { input.parse::<syn::Token![,]>()?; input.is_empty() });
+        if guard {
+            // swallow the rest: a guard is outside the subset
+            let _: proc_macro2::TokenStream = input.parse()?;
+        }
+        Ok(MatchesArgs(e, p, guard))
+    }
+}
+impl<'ast> Visit<'ast> for MatchesLits<'_> {
+    fn visit_macro(&mut self, m: &'ast syn::Macro) {
+        if !m.path.is_ident("matches") {
+            return;
+        }
+        let txt = m.tokens.to_string().replace(' ', "");
+        match syn::parse2::<MatchesArgs>(m.tokens.clone()) {
+            Ok(MatchesArgs(e, p, guard)) if flat(&e) == self.0 => {
+                let alts: Vec<syn::Pat> = match p {
+                    syn::Pat::Or(o) => o.cases.into_iter().collect(),
+                    other => vec![other],
+                };
+                let mut lits = vec![];
+                for a in &alts {
+                    match a {
+                        syn::Pat::Lit(syn::ExprLit { lit: syn::Lit::Str(s), .. }) => lits.push(s.value()),
+                        _ => {
+                            self.2.push(txt.clone());
+                            return;
+                        }
+                    }
+                }
+                if guard {
+                    self.2.push(txt);
+                } else {
+                    self.1.extend(lits);
+                }
+            }
+            Ok(_) => {}
+            Err(_) => self.2.push(txt),
+        }
     }
 }
 
@@ -159,53 +174,6 @@ fn one<T: Clone>(what: &str, v: &[T]) -> Result<T, String> {
 }
 
 fn scopefacts(repo: &Path) -> Result<String, String> {
-    // --- resolve_name
-    let scope_rs = find::parse(repo, "src/typechecker/scope.rs")?;
-    let f = find::func(&scope_rs, "resolve_name", Some("ScopeGraph"))?;
-    let mut o = Order(vec![]);
-    o.visit_block(&f.block);
-    let mut order = o.0;
-    // `if recurse && let Some(x) = …imports.get(..)`: the gate is the `recurse` operand
-    // of a `&&` that guards the imports: make it explicit when no `!recurse` precedes
-    let text = flat(&f.block);
-    if !order.contains(&"gate") && text.contains("recurse&&") {
-        if let Some(pos) = order.iter().position(|x| *x == "imports") {
-            order.insert(pos, "gate");
-        }
-    }
-    // the declaration looked up right after the imports is the import's target
-    if let Some(pos) = order.iter().position(|x| *x == "imports") {
-        if order.get(pos + 1) == Some(&"decl") {
-            order[pos + 1] = "target";
-        }
-    }
-    for want in ["decl", "gate", "imports", "target", "parent"] {
-        if order.iter().filter(|x| **x == want).count() != 1 {
-            return Err(format!("resolve_name: step `{want}` occurs {} times ({order:?})", order.iter().filter(|x| **x == want).count()));
-        }
-    }
-
-    // --- resolve_module_part_of_path
-    let expr_rs = find::parse(repo, "src/typechecker/expr.rs")?;
-    let f = find::func(&expr_rs, "resolve_module_part_of_path", None)?;
-    let mut r = Recurse(vec![]);
-    r.visit_block(&f.block);
-    let mut recurse = vec![];
-    for v in &r.0 {
-        match v.as_str() {
-            "true" => recurse.push("true"),
-            "false" => recurse.push("false"),
-            other => return Err(format!("resolve_module_part_of_path: `recurse` is given `{other}`")),
-        }
-    }
-    // `pkg` at the start of a path: looked up from the global scope
-    let text = flat(&f.block);
-    let pkg_global = text.contains("ifrecurse&&ident.node==\"pkg\".into(){scope=ScopeRef::GLOBAL;}");
-    let uses = flat(&f.block).matches("resolve_name(scope,ident,recurse)").count();
-    if uses != 1 {
-        return Err(format!("resolve_module_part_of_path: expected one `resolve_name(scope, ident, recurse)`, found {uses}"));
-    }
-
     // --- declare_modules
     let mod_rs = find::parse(repo, "src/typechecker/mod.rs")?;
     let f = find::func(&mod_rs, "declare_modules", None)?;
@@ -234,9 +202,23 @@ fn scopefacts(repo: &Path) -> Result<String, String> {
     // --- file discovery
     let ft_rs = find::parse(repo, "src/file_tree.rs")?;
     let f = find::func(&ft_rs, "find_files", None)?;
-    let mut c = Compared("ident", vec![]);
+    // the stem is whatever local is bound to `<entry path>.file_stem()…`; the stems
+    // that are skipped are the literals it is compared with (`==`, `matches!`)
+    let mut sv = BoundTo(".file_stem()", vec![]);
+    sv.visit_block(&f.block);
+    let stem_var = one("find_files: local bound to `….file_stem()…`", &sv.1)?;
+    let mut c = Compared(&stem_var, vec![]);
     c.visit_block(&f.block);
-    let skipped: Vec<String> = c.1.iter().filter(|(op, _)| op == "==").map(|(_, s)| s.clone()).collect();
+    if c.1.iter().any(|(op, _)| op != "==") {
+        return Err(format!("find_files: `{stem_var}` compared with `!=`"));
+    }
+    let mut skipped: Vec<String> = c.1.iter().map(|(_, s)| s.clone()).collect();
+    let mut mm = MatchesLits(&stem_var, vec![], vec![]);
+    mm.visit_block(&f.block);
+    if let Some(bad) = mm.2.first() {
+        return Err(format!("find_files: `matches!({bad})` outside the subset"));
+    }
+    skipped.extend(mm.1);
     let mut e = Compared("ext", vec![]);
     e.visit_block(&f.block);
     let ext = one("find_files: ext != <literal>", &e.1.iter().filter(|(op, _)| op == "!=").map(|(_, s)| s.clone()).collect::<Vec<_>>())?;
@@ -270,10 +252,6 @@ fn scopefacts(repo: &Path) -> Result<String, String> {
 
     let mut out = String::new();
     out.push_str("/- GENERATED by /verif/extract from src/typechecker/{scope,expr,mod,info}.rs, src/codegen/mod.rs, src/file_tree.rs — do not edit. -/\nnamespace RotoV.Gen.ScopeFacts\n\n");
-    out.push_str("/-- what one iteration of `resolve_name` consults -/\ninductive Step | decl | gate | imports | target | parent\n  deriving DecidableEq, Repr\n\n");
-    out.push_str(&format!("/-- … in this order -/\ndef resolveNameOrder : List Step := [{}]\n\n", order.iter().map(|s| format!(".{s}")).collect::<Vec<_>>().join(", ")));
-    out.push_str(&format!("/-- the values `resolve_module_part_of_path` gives to `recurse`, in source order -/\ndef recurseValues : List Bool := [{}]\n\n", recurse.join(", ")));
-    out.push_str(&format!("/-- a first segment `pkg` (not after `super`) is looked up from `ScopeRef::GLOBAL` -/\ndef pkgFromGlobal : Bool := {pkg_global}\n\n"));
     out.push_str(&format!("/-- first argument of `wrap` for a script module's scope (character codes) -/\ndef moduleScopeParent : List Nat := {}\n\n", codes(&module_parent)));
     out.push_str(&format!("def fullNameSeparator : List Nat := {}\n\n", codes(&sep)));
     out.push_str(&format!("/-- `get_function` looks up this prefix followed by the given name -/\ndef getFunctionPrefix : List Nat := {}\n\n", codes(&prefix)));
@@ -494,5 +472,479 @@ fn scopeimports(repo: &Path) -> Result<String, String> {
     out.push_str(&format!("/-- `declare_imports` collects the paths of every import declaration of a module and hands them to one `imports` call -/\ndef declareImportsWholeModule : Bool := {whole_module}\n\n"));
     out.push_str(&format!("/-- `block` hands the block's whole import list to one `imports` call before its statements -/\ndef blockImportsWhole : Bool := {whole_block}\n\n"));
     out.push_str("end RotoV.Gen.ScopeImportsLoop\n");
+    Ok(out)
+}
+
+// ---------------------------------------------------------------- `resolve_name`
+//
+// `ScopeGraph::resolve_name` (src/typechecker/scope.rs) is transliterated
+// statement by statement into the little language of
+// `lean/RotoV/Model/ScopeResolveLoop.lean` (`RBlock` / `RExpr`);
+// `RotoV.C13.resolve_name_as_modelled` proves that the transliterated body means
+// `Graph.resolveName` of the hand model.  Locals are bound by name (any name),
+// so a renaming or an extra immutable local extracts to an equivalent program;
+// a helper method, another loop, an `else`, a different key is an extraction
+// failure or a different program.
+
+struct ResolveTr {
+    /// names of the locals in scope, outermost first (`""` = bound, not nameable)
+    env: Vec<String>,
+}
+
+impl ResolveTr {
+    fn expr(&self, e: &syn::Expr) -> Result<String, String> {
+        match e {
+            syn::Expr::Paren(p) => self.expr(&p.expr),
+            syn::Expr::Reference(r) if r.mutability.is_none() => self.expr(&r.expr),
+            syn::Expr::Path(p) => {
+                let n = flat(p);
+                match self.env.iter().rposition(|v| !v.is_empty() && *v == n) {
+                    Some(i) => Ok(format!("(.var {i})")),
+                    None => Err(format!("resolve_name: `{n}` is not a local bound in the loop body")),
+                }
+            }
+            syn::Expr::Struct(st) if flat(&st.path) == "ResolvedName" && st.rest.is_none() && st.fields.len() == 2 => {
+                let mut have_scope = false;
+                let mut have_ident = false;
+                for f in &st.fields {
+                    match (flat(&f.member).as_str(), flat(&f.expr).as_str()) {
+                        ("scope", "scope") => have_scope = true,
+                        ("ident", "**ident") => have_ident = true,
+                        (m, v) => return Err(format!("resolve_name: key field `{m}: {v}` outside the subset")),
+                    }
+                }
+                if have_scope && have_ident {
+                    Ok(".mkName".into())
+                } else {
+                    Err(format!("resolve_name: key `{}` outside the subset", flat(e)))
+                }
+            }
+            syn::Expr::Field(_) if flat(e) == "self.scopes[scope.0].imports" => Ok(".scopeImports".into()),
+            syn::Expr::Field(f) if flat(&f.member) == "1" => Ok(format!("(.snd {})", self.expr(&f.base)?)),
+            syn::Expr::MethodCall(m) if m.turbofish.is_none() => {
+                let name = m.method.to_string();
+                match (name.as_str(), m.args.len()) {
+                    ("clone", 0) => self.expr(&m.receiver),
+                    ("unwrap", 0) => Ok(format!("(.unwrap {})", self.expr(&m.receiver)?)),
+                    ("get", 1) if flat(&m.receiver) == "self.declarations" => Ok(format!("(.declGet {})", self.expr(&m.args[0])?)),
+                    ("get", 1) if matches!(flat(&m.args[0]).as_str(), "ident" | "&ident" | "&**ident") => {
+                        Ok(format!("(.tableGet {})", self.expr(&m.receiver)?))
+                    }
+                    _ => Err(format!("resolve_name: call `{}` outside the subset", flat(e))),
+                }
+            }
+            _ => Err(format!("resolve_name: expression `{}` outside the subset", flat(e))),
+        }
+    }
+
+    fn block(&mut self, stmts: &[syn::Stmt]) -> Result<String, String> {
+        let Some((st, rest)) = stmts.split_first() else { return Ok(".done".into()) };
+        let depth = self.env.len();
+        let out = self.stmt(st, rest);
+        self.env.truncate(depth);
+        out
+    }
+
+    fn no_rest(&self, what: &str, rest: &[syn::Stmt]) -> Result<(), String> {
+        if rest.is_empty() {
+            Ok(())
+        } else {
+            Err(format!("resolve_name: statements after `{what}`"))
+        }
+    }
+
+    fn stmt(&mut self, st: &syn::Stmt, rest: &[syn::Stmt]) -> Result<String, String> {
+        match st {
+            syn::Stmt::Local(l) if is_hook(&l.attrs) => self.block(rest),
+            syn::Stmt::Macro(m) if is_hook(&m.attrs) => self.block(rest),
+            syn::Stmt::Local(l) => {
+                let syn::Pat::Ident(pi) = &l.pat else {
+                    return Err(format!("resolve_name: `{}` outside the subset (only `let v = e;`)", flat(l)));
+                };
+                if pi.mutability.is_some() || pi.by_ref.is_some() || pi.subpat.is_some() {
+                    return Err(format!("resolve_name: `{}` outside the subset (only `let v = e;`)", flat(l)));
+                }
+                let init = l.init.as_ref().ok_or_else(|| format!("resolve_name: `{}` without a value", flat(l)))?;
+                if init.diverge.is_some() {
+                    return Err(format!("resolve_name: `{}` outside the subset (let-else)", flat(l)));
+                }
+                let e = self.expr(&init.expr)?;
+                self.env.push(pi.ident.to_string());
+                Ok(format!("(.letE {e} {})", self.block(rest)?))
+            }
+            syn::Stmt::Expr(e, _) => match e {
+                syn::Expr::If(i) => {
+                    if i.else_branch.is_some() {
+                        return Err(format!("resolve_name: `if … else` outside the subset: `{}`", flat(&i.cond)));
+                    }
+                    let depth = self.env.len();
+                    let head = match &*i.cond {
+                        syn::Expr::Let(l) => {
+                            let scrut = self.expr(&l.expr)?;
+                            // `Some(v)` or `Some((_, v))`
+                            let syn::Pat::TupleStruct(ts) = &*l.pat else {
+                                return Err(format!("resolve_name: pattern `{}` outside the subset", flat(&l.pat)));
+                            };
+                            if flat(&ts.path) != "Some" || ts.elems.len() != 1 {
+                                return Err(format!("resolve_name: pattern `{}` outside the subset", flat(&l.pat)));
+                            }
+                            let mut wrap_snd = false;
+                            match &ts.elems[0] {
+                                syn::Pat::Ident(pi) if pi.by_ref.is_none() && pi.mutability.is_none() && pi.subpat.is_none() => {
+                                    self.env.push(pi.ident.to_string());
+                                }
+                                syn::Pat::Tuple(t) if t.elems.len() == 2 && matches!(t.elems[0], syn::Pat::Wild(_)) => {
+                                    let syn::Pat::Ident(pi) = &t.elems[1] else {
+                                        return Err(format!("resolve_name: pattern `{}` outside the subset", flat(&l.pat)));
+                                    };
+                                    if pi.by_ref.is_some() || pi.mutability.is_some() || pi.subpat.is_some() {
+                                        return Err(format!("resolve_name: pattern `{}` outside the subset", flat(&l.pat)));
+                                    }
+                                    self.env.push(String::new());
+                                    self.env.push(pi.ident.to_string());
+                                    wrap_snd = true;
+                                }
+                                _ => return Err(format!("resolve_name: pattern `{}` outside the subset", flat(&l.pat))),
+                            }
+                            let mut t = self.block(&i.then_branch.stmts)?;
+                            if wrap_snd {
+                                t = format!("(.letE (.snd (.var {depth})) {t})");
+                            }
+                            format!(".ifLetSome {scrut} {t}")
+                        }
+                        c if flat(c) == "!recurse" => format!(".ifNotRecurse {}", self.block(&i.then_branch.stmts)?),
+                        c => return Err(format!("resolve_name: condition `{}` outside the subset", flat(c))),
+                    };
+                    self.env.truncate(depth);
+                    Ok(format!("({head} {})", self.block(rest)?))
+                }
+                syn::Expr::Return(r) => {
+                    self.no_rest("return", rest)?;
+                    match r.expr.as_deref() {
+                        Some(x) if flat(x) == "None" => Ok(".retNone".into()),
+                        Some(syn::Expr::Call(c)) if flat(&c.func) == "Some" && c.args.len() == 1 => Ok(format!("(.retSome {})", self.expr(&c.args[0])?)),
+                        _ => Err(format!("resolve_name: `{}` outside the subset", flat(e))),
+                    }
+                }
+                syn::Expr::Assign(a) if flat(&a.left) == "scope" && flat(&a.right) == "self.parent(scope)?" => {
+                    Ok(format!("(.ascend {})", self.block(rest)?))
+                }
+                other => Err(format!("resolve_name: statement `{}` outside the subset", flat(other))),
+            },
+            other => Err(format!("resolve_name: statement `{}` outside the subset", flat(other))),
+        }
+    }
+}
+
+fn scoperesolve(repo: &Path) -> Result<String, String> {
+    let scope_rs = find::parse(repo, "src/typechecker/scope.rs")?;
+    let f = find::func(&scope_rs, "resolve_name", Some("ScopeGraph"))?;
+    let params: Vec<String> = f.sig.inputs.iter().filter_map(|a| match a {
+        syn::FnArg::Typed(t) => Some(flat(&t.pat)),
+        _ => None,
+    }).collect();
+    if params != ["mutscope", "ident", "recurse"] {
+        return Err(format!("resolve_name: parameters {params:?}, expected mut scope, ident, recurse"));
+    }
+    let stmts: Vec<&syn::Stmt> = f.block.stmts.iter().filter(|s| !matches!(s, syn::Stmt::Local(l) if is_hook(&l.attrs))).collect();
+    let body = match stmts.as_slice() {
+        [syn::Stmt::Expr(syn::Expr::Loop(l), _)] if l.label.is_none() => {
+            let mut tr = ResolveTr { env: vec![] };
+            tr.block(&l.body.stmts)?
+        }
+        _ => return Err("resolve_name: the body is not a single `loop { … }`".into()),
+    };
+    // `parent` is the plain field read the model assumes
+    let p = find::func(&scope_rs, "parent", Some("ScopeGraph"))?;
+    if flat(&p.block) != "{self.scopes[scope.0].parent}" {
+        return Err(format!("ScopeGraph::parent is not `self.scopes[scope.0].parent` but `{}`", flat(&p.block)));
+    }
+    let mut out = String::new();
+    out.push_str("/- GENERATED by /verif/extract from src/typechecker/scope.rs — do not edit. -/\nimport RotoV.Model.ScopeResolveLoop\n\nnamespace RotoV.Gen.ScopeResolveLoop\nopen RotoV.Scope.RLoop\n\n");
+    out.push_str(&format!("/-- the body of the `loop` of `ScopeGraph::resolve_name` -/\ndef resolveNameBody : RBlock :=\n  {body}\n\n"));
+    out.push_str("end RotoV.Gen.ScopeResolveLoop\n");
+    Ok(out)
+}
+
+// ---------------------------------------------------------------- `resolve_module_part_of_path`
+//
+// `TypeChecker::resolve_module_part_of_path` (src/typechecker/expr.rs) is
+// transliterated into the little language of `lean/RotoV/Model/ScopePathLoop.lean`
+// (`PBlock` / `PExpr`): the body of the `while ident.node == "super".into()`
+// loop, the statements between the loops, the body of the `loop`.
+// `RotoV.C13.resolve_module_part_as_modelled` proves that they mean
+// `Scope.resolveModulePart` of the hand model.
+
+struct PathTr {
+    env: Vec<String>,
+}
+
+const IS_SUPER: &str = "ident.node==\"super\".into()";
+const IS_PKG: &str = "ident.node==\"pkg\".into()";
+
+impl PathTr {
+    fn var(&self, e: &syn::Expr) -> Result<String, String> {
+        let n = flat(e);
+        match (e, self.env.iter().rposition(|v| *v == n)) {
+            (syn::Expr::Path(_), Some(i)) => Ok(format!("(.var {i})")),
+            _ => Err(format!("resolve_module_part_of_path: `{n}` is not a local bound by `let Some(…) = … else`")),
+        }
+    }
+
+    fn opt_expr(&self, e: &syn::Expr) -> Result<String, String> {
+        let txt = flat(e);
+        match txt.as_str() {
+            "self.type_info.scope_graph.parent_module(scope)" => Ok(".parentModule".into()),
+            "self.type_info.scope_graph.resolve_name(scope,ident,recurse)" => Ok(".resolveName".into()),
+            "idents.next()" => Ok(".nextIdent".into()),
+            _ => match e {
+                syn::Expr::Field(f) if flat(&f.member) == "scope" => Ok(format!("(.declScope {})", self.var(&f.base)?)),
+                _ => Err(format!("resolve_module_part_of_path: expression `{txt}` outside the subset")),
+            },
+        }
+    }
+
+    fn block(&mut self, stmts: &[syn::Stmt]) -> Result<String, String> {
+        let Some((st, rest)) = stmts.split_first() else { return Ok(".done".into()) };
+        let depth = self.env.len();
+        let out = self.stmt(st, rest);
+        self.env.truncate(depth);
+        out
+    }
+
+    fn ret(&self, e: &syn::Expr) -> Result<String, String> {
+        let bad = || format!("resolve_module_part_of_path: `return {}` outside the subset", flat(e));
+        let syn::Expr::Call(c) = e else { return Err(bad()) };
+        if c.args.len() != 1 {
+            return Err(bad());
+        }
+        match (flat(&c.func).as_str(), &c.args[0]) {
+            ("Ok", syn::Expr::Tuple(t)) if t.elems.len() == 2 && flat(&t.elems[0]) == "ident" => Ok(format!("(.retOk {})", self.var(&t.elems[1])?)),
+            ("Err", syn::Expr::MethodCall(m)) if flat(&m.receiver) == "self" && m.method == "error_not_defined" && m.args.len() == 1 && flat(&m.args[0]) == "ident" => {
+                Ok(".retNotDefined".into())
+            }
+            ("Err", syn::Expr::MethodCall(m)) if flat(&m.receiver) == "self" && m.method == "error_simple" => {
+                let mut lits = MethodLitsAll(vec![]);
+                lits.visit_expr_method_call(m);
+                if lits.0.iter().any(|l| l.contains("too many leading `super` keywords")) {
+                    Ok(".retTooManySuper".into())
+                } else {
+                    Err(bad())
+                }
+            }
+            _ => Err(bad()),
+        }
+    }
+
+    fn stmt(&mut self, st: &syn::Stmt, rest: &[syn::Stmt]) -> Result<String, String> {
+        match st {
+            syn::Stmt::Local(l) if is_hook(&l.attrs) => self.block(rest),
+            syn::Stmt::Macro(m) if is_hook(&m.attrs) => self.block(rest),
+            syn::Stmt::Macro(m) if m.mac.path.is_ident("unreachable") && m.mac.tokens.is_empty() => {
+                if !rest.is_empty() {
+                    return Err("resolve_module_part_of_path: statements after `unreachable!()`".into());
+                }
+                Ok(".unreachable".into())
+            }
+            syn::Stmt::Local(l) => {
+                // `let Some(v) = e else { … };`
+                let bad = || format!("resolve_module_part_of_path: `{}` outside the subset (only `let Some(v) = e else {{ … }};`)", flat(l));
+                let syn::Pat::TupleStruct(ts) = &l.pat else { return Err(bad()) };
+                let Some(init) = &l.init else { return Err(bad()) };
+                let Some((_, els)) = &init.diverge else { return Err(bad()) };
+                let syn::Expr::Block(eb) = &**els else { return Err(bad()) };
+                if flat(&ts.path) != "Some" || ts.elems.len() != 1 {
+                    return Err(bad());
+                }
+                let syn::Pat::Ident(pi) = &ts.elems[0] else { return Err(bad()) };
+                if pi.by_ref.is_some() || pi.mutability.is_some() || pi.subpat.is_some() {
+                    return Err(bad());
+                }
+                let e = self.opt_expr(&init.expr)?;
+                let els = self.block(&eb.block.stmts)?;
+                self.env.push(pi.ident.to_string());
+                Ok(format!("(.letElse {e} {els} {})", self.block(rest)?))
+            }
+            syn::Stmt::Expr(e, _) => match e {
+                syn::Expr::If(i) => {
+                    if i.else_branch.is_some() {
+                        return Err(format!("resolve_module_part_of_path: `if … else` outside the subset: `{}`", flat(&i.cond)));
+                    }
+                    let c = flat(&i.cond);
+                    let head = if c == IS_SUPER {
+                        ".ifSuper"
+                    } else if c == format!("recurse&&{IS_PKG}") {
+                        ".ifRecurseAndPkg"
+                    } else {
+                        return Err(format!("resolve_module_part_of_path: condition `{c}` outside the subset"));
+                    };
+                    let t = self.block(&i.then_branch.stmts)?;
+                    Ok(format!("({head} {t} {})", self.block(rest)?))
+                }
+                syn::Expr::Return(r) => {
+                    if !rest.is_empty() {
+                        return Err("resolve_module_part_of_path: statements after `return`".into());
+                    }
+                    let x = r.expr.as_deref().ok_or("resolve_module_part_of_path: bare `return`")?;
+                    self.ret(x)
+                }
+                syn::Expr::Assign(a) => {
+                    let k = |me: &mut Self| me.block(rest);
+                    match (flat(&a.left).as_str(), flat(&a.right).as_str()) {
+                        ("scope", "ScopeRef::GLOBAL") => Ok(format!("(.setScopeGlobal {})", k(self)?)),
+                        ("scope", _) => {
+                            let v = self.var(&a.right)?;
+                            Ok(format!("(.setScope {v} {})", k(self)?))
+                        }
+                        ("ident", _) => {
+                            let v = self.var(&a.right)?;
+                            Ok(format!("(.setIdent {v} {})", k(self)?))
+                        }
+                        ("recurse", b @ ("true" | "false")) => {
+                            let b = b.to_string();
+                            Ok(format!("(.setRecurse {b} {})", k(self)?))
+                        }
+                        (l, r) => Err(format!("resolve_module_part_of_path: assignment `{l} = {r}` outside the subset")),
+                    }
+                }
+                other => Err(format!("resolve_module_part_of_path: statement `{}` outside the subset", flat(other))),
+            },
+            other => Err(format!("resolve_module_part_of_path: statement `{}` outside the subset", flat(other))),
+        }
+    }
+}
+
+/// every string literal below an expression
+struct MethodLitsAll(Vec<String>);
+impl<'ast> Visit<'ast> for MethodLitsAll {
+    fn visit_lit_str(&mut self, s: &'ast syn::LitStr) {
+        self.0.push(s.value());
+    }
+}
+
+fn scopepath(repo: &Path) -> Result<String, String> {
+    let expr_rs = find::parse(repo, "src/typechecker/expr.rs")?;
+    let f = find::func(&expr_rs, "resolve_module_part_of_path", None)?;
+    let params: Vec<String> = f.sig.inputs.iter().filter_map(|a| match a {
+        syn::FnArg::Typed(t) => Some(flat(&t.pat)),
+        _ => None,
+    }).collect();
+    if params != ["mutscope", "mutidents"] {
+        return Err(format!("resolve_module_part_of_path: parameters {params:?}, expected mut scope, mut idents"));
+    }
+    let stmts: Vec<&syn::Stmt> = f.block.stmts.iter().filter(|s| !matches!(s, syn::Stmt::Local(l) if is_hook(&l.attrs))).collect();
+    let [first, second, third, between @ .., last] = stmts.as_slice() else {
+        return Err("resolve_module_part_of_path: fewer than four statements".into());
+    };
+    if flat(*first) != "letmutident=idents.next().unwrap();" {
+        return Err(format!("resolve_module_part_of_path: does not start with `let mut ident = idents.next().unwrap();` but `{}`", flat(*first)));
+    }
+    let recurse0 = match flat(*second).as_str() {
+        "letmutrecurse=true;" => "true",
+        "letmutrecurse=false;" => "false",
+        other => return Err(format!("resolve_module_part_of_path: second statement `{other}` is not `let mut recurse = <bool>;`")),
+    };
+    let w = match third {
+        syn::Stmt::Expr(syn::Expr::While(w), _) if w.label.is_none() && flat(&w.cond) == IS_SUPER => PathTr { env: vec![] }.block(&w.body.stmts)?,
+        other => return Err(format!("resolve_module_part_of_path: third statement is not `while {IS_SUPER}` but `{}`", flat(*other).chars().take(80).collect::<String>())),
+    };
+    let between: Vec<syn::Stmt> = between.iter().map(|s| (*s).clone()).collect();
+    let s = PathTr { env: vec![] }.block(&between)?;
+    let l = match last {
+        syn::Stmt::Expr(syn::Expr::Loop(l), _) if l.label.is_none() => PathTr { env: vec![] }.block(&l.body.stmts)?,
+        _ => return Err("resolve_module_part_of_path: the last statement is not `loop { … }`".into()),
+    };
+    let mut out = String::new();
+    out.push_str("/- GENERATED by /verif/extract from src/typechecker/expr.rs — do not edit. -/\nimport RotoV.Model.ScopePathLoop\n\nnamespace RotoV.Gen.ScopePathLoop\nopen RotoV.Scope.PLoop\n\n");
+    out.push_str(&format!("/-- `let mut recurse = …;` -/\ndef initialRecurse : Bool := {recurse0}\n\n"));
+    out.push_str(&format!("/-- the body of `while ident.node == \"super\".into()` -/\ndef whileBody : PBlock :=\n  {w}\n\n"));
+    out.push_str(&format!("/-- the statements between the two loops -/\ndef betweenBody : PBlock :=\n  {s}\n\n"));
+    out.push_str(&format!("/-- the body of the final `loop` -/\ndef loopBody : PBlock :=\n  {l}\n\n"));
+    out.push_str("end RotoV.Gen.ScopePathLoop\n");
+    Ok(out)
+}
+
+// ---------------------------------------------------------------- `import`
+//
+// `TypeChecker::import` (src/typechecker/mod.rs): its statements as steps of
+// `lean/RotoV/Model/ScopeImportOne.lean`; `RotoV.C13.import_as_modelled` proves
+// that they mean `Scope.importOne`.  `ScopeGraph::insert_import`: the table it
+// writes and the key.
+
+fn scopeimportone(repo: &Path) -> Result<String, String> {
+    let mod_rs = find::parse(repo, "src/typechecker/mod.rs")?;
+    let f = find::func(&mod_rs, "import", Some("TypeChecker"))?;
+    let params: Vec<String> = f.sig.inputs.iter().filter_map(|a| match a {
+        syn::FnArg::Typed(t) => Some(flat(&t.pat)),
+        _ => None,
+    }).collect();
+    if params != ["scope", "path"] {
+        return Err(format!("import: parameters {params:?}, expected scope, path"));
+    }
+    let stmts: Vec<&syn::Stmt> = f.block.stmts.iter().filter(|s| !matches!(s, syn::Stmt::Local(l) if is_hook(&l.attrs))).collect();
+    let Some((first, rest)) = stmts.split_first() else { return Err("import: empty body".into()) };
+    if flat(*first) != "letmutidents=path.idents.iter();" {
+        return Err(format!("import: the body does not start with `let mut idents = path.idents.iter();` but `{}`", flat(*first)));
+    }
+    let mut steps: Vec<&str> = vec![];
+    // the names bound to the resolved identifier and declaration
+    let mut bound: Option<(String, String)> = None;
+    for (k, st) in rest.iter().enumerate() {
+        let last = k + 1 == rest.len();
+        match st {
+            syn::Stmt::Local(l) => {
+                let syn::Pat::Tuple(t) = &l.pat else { return Err(format!("import: `{}` outside the subset", flat(l))) };
+                let names: Vec<String> = t.elems.iter().map(|p| flat(p)).collect();
+                let init = l.init.as_ref().map(|i| flat(&i.expr)).unwrap_or_default();
+                if names.len() != 2 || names.iter().any(|n| !n.chars().all(|c| c.is_alphanumeric() || c == '_')) || init != "self.resolve_module_part_of_path(scope,&mutidents)?" || bound.is_some() {
+                    return Err(format!("import: `{}` outside the subset", flat(l)));
+                }
+                bound = Some((names[0].clone(), names[1].clone()));
+                steps.push(".resolve");
+            }
+            syn::Stmt::Expr(syn::Expr::If(i), _) if !last => {
+                let Some((a, b)) = &bound else { return Err("import: leftover test before the path is resolved".into()) };
+                let ok_cond = match &*i.cond {
+                    syn::Expr::Let(l) => {
+                        flat(&l.expr) == "idents.next()" && matches!(&*l.pat, syn::Pat::TupleStruct(ts) if flat(&ts.path) == "Some" && ts.elems.len() == 1
+                            && matches!(&ts.elems[0], syn::Pat::Wild(_) | syn::Pat::Ident(_)))
+                    }
+                    c => flat(c) == "idents.next().is_some()",
+                };
+                if !ok_cond || i.else_branch.is_some() || flat(&i.then_branch) != format!("{{returnErr(self.error_expected_module({a},{b}));}}") {
+                    return Err(format!("import: `if {} …` outside the subset", flat(&i.cond)));
+                }
+                steps.push(".leftoverIsError");
+            }
+            syn::Stmt::Expr(e, None) if last => {
+                let Some((a, b)) = &bound else { return Err("import: insert before the path is resolved".into()) };
+                let want = format!("self.type_info.scope_graph.insert_import(scope,{a}.id,{b}.name).map_err(|old|self.error_declared_twice({a},old))");
+                if flat(e) != want {
+                    return Err(format!("import: tail expression `{}` outside the subset", flat(e)));
+                }
+                steps.push(".insert");
+            }
+            other => return Err(format!("import: statement `{}` outside the subset", flat(*other))),
+        }
+    }
+    // `insert_import`: writes `self.scopes[scope.0].imports`, keyed by `name.ident`, stores `(id, name)`,
+    // an occupied entry is the error
+    let scope_rs = find::parse(repo, "src/typechecker/scope.rs")?;
+    let f = find::func(&scope_rs, "insert_import", Some("ScopeGraph"))?;
+    let txt = flat(&f.block);
+    let params: Vec<String> = f.sig.inputs.iter().filter_map(|a| match a {
+        syn::FnArg::Typed(t) => Some(flat(&t.pat)),
+        _ => None,
+    }).collect();
+    let as_modelled = params == ["scope", "id", "name"]
+        && txt.contains("&mutself.scopes[scope.0].imports")
+        && txt.matches(".entry(name.ident)").count() == 1
+        && txt.contains("Entry::Occupied(entry)=>Err(entry.get().0)")
+        && txt.contains("entry.insert((id,name));Ok(())");
+    let mut out = String::new();
+    out.push_str("/- GENERATED by /verif/extract from src/typechecker/{mod,scope}.rs — do not edit. -/\nimport RotoV.Model.ScopeImportOne\n\nnamespace RotoV.Gen.ScopeImportOne\nopen RotoV.Scope.ImportOne\n\n");
+    out.push_str(&format!("/-- the statements of `TypeChecker::import` after `let mut idents = path.idents.iter();` -/\ndef importSteps : List IStep := [{}]\n\n", steps.join(", ")));
+    out.push_str(&format!("/-- `insert_import` writes the table of `scope`, keyed by the identifier of the target name; an occupied entry is the error -/\ndef insertImportAsModelled : Bool := {as_modelled}\n\n"));
+    out.push_str("end RotoV.Gen.ScopeImportOne\n");
     Ok(out)
 }
